@@ -33,8 +33,12 @@ def arguments(rng, quick, N=1600):
     for i in nodes:
         z0 = i * step
         zs += [z0, z0 + 0.5 * step * (1 - 1e-9), z0 + 0.5 * step, z0 + 0.25 * step]
+        # both sides of the "argument is a table node" shortcut and well into the region where it must not fire
+        offs = [5e-13, 2e-12, 1e-10, 1e-8, 9e-8, 1.1e-7, 1e-6] if (not quick or i % 7 == 0 or i < 8) else [2e-12, 10 ** rng.uniform(-11.5, -6)]
+        for o in offs:
+            zs += [z0 + o, z0 - o]
         if not quick:
-            zs += [z0 + 5e-13, z0 + 2e-12, z0 + 0.5 * step * (1 + 1e-9)]
+            zs += [z0 + 0.5 * step * (1 + 1e-9)]
     zs += [rng.uniform(0, 16.2) for _ in range(300 if quick else 5000)]
     zs += [10 ** rng.uniform(-9, 4) for _ in range(200 if quick else 3000)]
     return [z for z in zs if z >= 0]
